@@ -49,18 +49,64 @@ VARS = ["name", "count", "n", "who"]
 COMPS = ["b", "i", "em"]
 
 
+# whitespace the grammar tolerates inside tags and interpolations (Rust `trim`: any Unicode White_Space)
+WS = ["", "", "", " ", " ", "  ", "\t", "\u00a0", "\u3000"]
+# strings that look like another type or like YAML/JSON5 syntax when they are written without quotes
+LOOKALIKES = ["yes", "no", "on", "off", "y", "n", "012", "0x10", "0o17", "+1", "1e2", ".5", "5.", "1_000", "true", "True", "false", "null",
+              "Null", "~", "NaN", ".inf", "Infinity", "-", "- a", "? a", "a: b", "a #b", "#a", "[a]", "{a}", "a, b", "'a'", "\"a\"", "|", ">",
+              "!tag", "&a", "*a", "%a", "@a", "`a`", "", " ", "\t", "a\nb", "a\n\nb", "a\n  b", "trailing \n", "\\n", "\\u0041", "\u00e9\n"]
+
+
+def w(rng):
+    return rng.choice(WS)
+
+
+def gen_var(rng, name):
+    """an interpolation with the whitespace variants the grammar allows: `{{x}}`, `{{  x , number }}`, NBSP / U+3000 padding"""
+    fmt = ""
+    if rng.random() < 0.25:
+        fmt = w(rng) + "," + w(rng) + rng.choice(["number", "number(grouping_strategy: never)", "date", "list(list_type: or)"]) + w(rng)
+    return "{{" + w(rng) + name + w(rng) + fmt + "}}"
+
+
+def gen_comp(rng, name, inner):
+    """a component: `< b >`, `< /b>`, `</ b >`, `<b\\t>` ... and near-misses that are plain text or another component"""
+    op = "<" + w(rng) + name + w(rng) + ">"
+    cl = "<" + w(rng) + "/" + w(rng) + name + w(rng) + ">"
+    r = rng.random()
+    if r < 0.80:
+        return op + inner + cl
+    if r < 0.85:
+        return op + inner + "</" + rng.choice(["c", name + "x", ""]) + ">"        # closing tag of something else
+    if r < 0.90:
+        return op + inner + op                                                     # never closed
+    if r < 0.95:
+        return "<" + name + "/>" + inner                                           # self closing spelling
+    return inner + cl                                                              # closing tag alone
+
+
 def gen_text(rng, with_count=False):
+    r0 = rng.random()
+    if r0 < 0.08:
+        return rng.choice(LOOKALIKES)
+    if r0 < 0.18:
+        # the value is ONLY a component, spelled with a whitespace variant
+        c = rng.choice(COMPS)
+        return gen_comp(rng, c, rng.choice(WORDS[:8] + ["", gen_var(rng, "count" if with_count else rng.choice(VARS))]))
     parts = []
     for _ in range(rng.randint(1, 3)):
         r = rng.random()
-        if r < 0.55:
+        if r < 0.45:
             parts.append(rng.choice(WORDS))
-        elif r < 0.8:
-            parts.append("{{ %s }}" % ("count" if with_count else rng.choice(VARS)))
+        elif r < 0.5:
+            parts.append(rng.choice(LOOKALIKES))
+        elif r < 0.75:
+            parts.append(gen_var(rng, "count" if with_count else rng.choice(VARS)))
         else:
             c = rng.choice(COMPS)
-            parts.append("<%s>%s</%s>" % (c, rng.choice(WORDS[:8]), c))
-    return " ".join(parts)
+            inner = rng.choice(WORDS[:8]) if rng.random() < 0.8 else gen_comp(rng, rng.choice(COMPS), rng.choice(WORDS[:4]))
+            parts.append(gen_comp(rng, c, inner))
+    return rng.choice([" ", " ", "", "\n"]).join(parts)
 
 
 def gen_leaf(rng):
@@ -68,9 +114,9 @@ def gen_leaf(rng):
     if r < 0.62:
         return ("str", gen_text(rng))
     if r < 0.70:
-        return ("int", rng.choice([0, 1, 5, 42, -3, -17, 1000000]))
+        return ("int", rng.choice([0, 1, 5, 16, 42, -3, -17, 1000000, 255]))
     if r < 0.75:
-        return ("float", rng.choice([59.89, -0.5, 2.25, 1e3]))
+        return ("float", rng.choice([59.89, -0.5, 0.5, 2.25, 1e3, 100.0, 5.0, 1.5e-7, 6.02e23]))
     if r < 0.80:
         return ("bool", rng.random() < 0.5)
     # ranges: a sequence (its own order is content, never permuted)
@@ -196,25 +242,109 @@ def sort_tree(tree, reverse=False):
 
 IDENT = re.compile(r"^[A-Za-z_][A-Za-z0-9_]*$")
 YAML_SPECIAL = {"yes", "no", "null", "true", "false", "on", "off", "y", "n", "~"}
+YAML_PLAIN = re.compile(r"^[A-Za-z<][^\x00-\x1f\x7f#:]*[^\s\x00-\x1f\x7f#:]$")
+YAML_NOT_STRING = re.compile(r"^(true|false|null|nan|inf|infinity)$", re.I)
+PRINTABLE = re.compile(r"^[^\x00-\x08\x0b-\x1f\x7f\x85\u2028\u2029\ufeff]*$")
 
 
 def jstr(s, ascii_only=False):
     return json.dumps(s, ensure_ascii=ascii_only)
 
 
-def scalar_json(v):
-    if v[0] == "str":
-        return jstr(v[1])
+def json_string(s, rng):
+    """serde_json: always handed over through visit_str (reader input: nothing is borrowed); escapes vary"""
+    if rng.random() < 0.3 and all(ord(c) < 0x10000 for c in s):
+        return jstr(s, True)              # \uXXXX escapes
+    if rng.random() < 0.15:
+        return jstr(s).replace("/", "\\/")   # the optional solidus escape
+    return jstr(s)
+
+
+def json5_string(s, rng):
+    """json5: visit_string (owned); double or single quotes, JS escapes"""
+    body = jstr(s)[1:-1]
+    if rng.random() < 0.45:
+        return "'" + body.replace('\\"', '"').replace("'", "\\'") + "'"
+    return '"' + body + '"'
+
+
+def yaml_string(s, rng, flow=False, ind=0):
+    """serde_yaml: visit_str; plain, single-quoted, double-quoted, literal block and folded block scalars where each is exact"""
+    opts = ["dq"]
+    if PRINTABLE.match(s) and "\n" not in s and "\r" not in s and "\t" not in s:
+        opts.append("sq")
+        if (YAML_PLAIN.match(s) and not YAML_NOT_STRING.match(s) and ": " not in s and " #" not in s and not s.endswith(":")
+                and (not flow or not re.search(r"[\[\]{},]", s))):
+            opts += ["plain", "plain"]
+    lines = s.split("\n")
+    if (not flow and PRINTABLE.match(s.replace("\n", "").replace("\t", "")) and "\r" not in s and s and not s.endswith("\n")
+            and all(l and l[0] not in " \t" for l in lines)):
+        opts.append("literal")
+        if len(lines) == 1 and not s.endswith(" ") and not s.endswith("\t"):
+            opts.append("folded")
+    o = rng.choice(opts)
+    if o == "dq":
+        return jstr(s)
+    if o == "sq":
+        return "'" + s.replace("'", "''") + "'"
+    if o == "plain":
+        return s
+    pad = " " * (ind + 2)
+    return ("|-" if o == "literal" else ">-") + "\n" + "\n".join(pad + l for l in lines)
+
+
+def num_spelling(v, fmt, rng):
+    """integers and floats as each format lets a human write them; the numeric KIND (integer / float) is content and is kept"""
     if v[0] == "int":
-        return str(v[1])
-    if v[0] == "float":
-        return repr(float(v[1]))
+        n = v[1]
+        opts = [str(n)]
+        if fmt == "json5" and n > 0:
+            opts += ["+%d" % n, "0x%X" % n, "0x%x" % n]
+        if fmt == "yaml" and n > 0:
+            opts += ["+%d" % n, "0x%x" % n, "0o%o" % n]
+        return rng.choice(opts)
+    x = float(v[1])
+    opts = [repr(x), "%e" % x if float("%e" % x) == x else repr(x), ("%E" % x) if float("%E" % x) == x else repr(x)]
+    if fmt in ("json5", "yaml") and x > 0:
+        opts.append("+" + repr(x))
+    if fmt in ("json5", "yaml") and x == int(x) and abs(x) < 1e15:
+        opts.append("%d." % int(x))
+    if fmt in ("json5", "yaml") and 0 < abs(x) < 1 and repr(x).replace("-", "").startswith("0."):
+        opts.append(repr(x).replace("0.", ".", 1))
+    return rng.choice(opts)
+
+
+def seq_spelling(el, fmt, rng, flow=True):
+    """a range declaration (nested lists of strings and numbers): element order is content, spelling is not"""
+    if isinstance(el, list):
+        inner = [seq_spelling(e, fmt, rng) for e in el]
+        if fmt == "json5" and inner and rng.random() < 0.3:
+            return "[" + ", ".join(inner) + ",]"
+        return "[" + rng.choice([", ", ","]).join(inner) + "]"
+    if isinstance(el, bool):
+        return "true" if el else "false"
+    if isinstance(el, int):
+        return num_spelling(("int", el), fmt, rng)
+    if isinstance(el, float):
+        return num_spelling(("float", el), fmt, rng)
+    if el is None:
+        return "null"
+    return {"json": json_string, "json5": json5_string}[fmt](el, rng) if fmt != "yaml" else yaml_string(el, rng, flow=True)
+
+
+def scalar(v, fmt, rng, ind=0):
+    if v[0] == "str":
+        return {"json": json_string, "json5": json5_string}[fmt](v[1], rng) if fmt != "yaml" else yaml_string(v[1], rng, ind=ind)
+    if v[0] in ("int", "float"):
+        return num_spelling(v, fmt, rng)
     if v[0] == "bool":
+        if fmt == "yaml":
+            return rng.choice(["true", "True", "TRUE"] if v[1] else ["false", "False", "FALSE"])
         return "true" if v[1] else "false"
     if v[0] == "null":
-        return "null"
+        return rng.choice(["null", "~", "Null", "NULL", ""]) if fmt == "yaml" else "null"
     if v[0] == "seq":
-        return json.dumps(v[1], ensure_ascii=False)
+        return seq_spelling(v[1], fmt, rng)
     raise ValueError(v)
 
 
@@ -222,10 +352,8 @@ def to_json(tree, rng, ind=0):
     pad = " " * (ind + 2)
     items = []
     for k, v in tree:
-        body = to_json(v[1], rng, ind + 2) if v[0] == "obj" else scalar_json(v)
-        if v[0] == "str" and rng.random() < 0.3 and all(ord(c) < 0x10000 for c in v[1]):
-            body = jstr(v[1], True)          # \uXXXX escapes
-        items.append("%s%s:%s%s" % (pad, jstr(k), rng.choice([" ", "  ", ""]), body))
+        body = to_json(v[1], rng, ind + 2) if v[0] == "obj" else scalar(v, "json", rng)
+        items.append("%s%s:%s%s" % (pad, json_string(k, rng), rng.choice([" ", "  ", ""]), body))
     return "{\n" + ",\n".join(items) + "\n" + " " * ind + "}"
 
 
@@ -233,13 +361,11 @@ def to_json5(tree, rng, ind=0):
     pad = " " * (ind + 2)
     items = []
     for k, v in tree:
-        body = to_json5(v[1], rng, ind + 2) if v[0] == "obj" else scalar_json(v)
-        if v[0] == "str" and rng.random() < 0.3 and "'" not in v[1] and "\\" not in v[1] and "\n" not in v[1] and "\t" not in v[1]:
-            body = "'" + v[1] + "'"
-        key = k if IDENT.match(k) and rng.random() < 0.6 else jstr(k)
+        body = to_json5(v[1], rng, ind + 2) if v[0] == "obj" else scalar(v, "json5", rng)
+        key = k if IDENT.match(k) and rng.random() < 0.6 else json5_string(k, rng)
         items.append("%s%s: %s," % (pad, key, body))
         if rng.random() < 0.1:
-            items.append(pad + "// a comment")
+            items.append(pad + rng.choice(["// a comment", "/* a block comment */"]))
     return "{\n" + "\n".join(items) + "\n" + " " * ind + "}"
 
 
@@ -247,21 +373,30 @@ def to_yaml(tree, rng, ind=0):
     pad = " " * ind
     lines = []
     for k, v in tree:
-        key = k if IDENT.match(k) and k.lower() not in YAML_SPECIAL and rng.random() < 0.7 else jstr(k)
+        if IDENT.match(k) and k.lower() not in YAML_SPECIAL and rng.random() < 0.7:
+            key = k
+        else:
+            key = rng.choice([jstr(k), "'" + k.replace("'", "''") + "'"]) if PRINTABLE.match(k) and "\n" not in k and "\t" not in k else jstr(k)
         if v[0] == "obj":
             if not v[1]:
                 lines.append("%s%s: {}" % (pad, key))
             else:
                 lines.append("%s%s:" % (pad, key))
                 lines.append(to_yaml(v[1], rng, ind + 2))
-        elif v[0] == "null":
-            lines.append("%s%s: %s" % (pad, key, rng.choice(["null", "~"])))
-        elif v[0] == "seq" and rng.random() < 0.5:
+        elif v[0] == "seq" and rng.random() < 0.5 and v[1]:
+            # block sequence of the branches, each branch a flow sequence or a nested block sequence
             lines.append("%s%s:" % (pad, key))
             for el in v[1]:
-                lines.append("%s  - %s" % (pad, json.dumps(el, ensure_ascii=False)))
+                if isinstance(el, list) and el and rng.random() < 0.4:
+                    first = True
+                    for sub in el:
+                        lines.append("%s  %s %s" % (pad, "- -" if first else "  -", seq_spelling(sub, "yaml", rng)))
+                        first = False
+                else:
+                    lines.append("%s  - %s" % (pad, seq_spelling(el, "yaml", rng)))
         else:
-            lines.append("%s%s: %s" % (pad, key, scalar_json(v)))
+            body = scalar(v, "yaml", rng, ind)
+            lines.append(("%s%s: %s" % (pad, key, body)).rstrip(" ") if body == "" else "%s%s: %s" % (pad, key, body))
     return "\n".join(lines)
 
 
